@@ -804,5 +804,15 @@ def run(prog, tier, seed):
         return r
     dep = adopt(T.results(T(_opaque_nodes, prog)), PROP,
                 'graph.py treats nodes as opaque hashable values')
+    # clone() of the subclass: a Kripke structure is a DiGraph too, its
+    # clone must be as independent as DiGraph.clone is
+
+    def _kripke_clone(prog):
+        from . import c14
+        r = c14.rule_k4(prog, adj)
+        r.findings = [f for f in r.findings if 'clone' in f.key]
+        return r
+    dep = dep + adopt(T.results(T(_kripke_clone, prog)), PROP,
+                      'clone() of the Kripke subclass')
     return T.results(r0, r1, r2, r3) + dep, expl, assumptions, \
         T.extra({'adjacency_field': adj})
